@@ -71,7 +71,9 @@ def kernel_pred(c):
     feq = np.abs(rng.standard_normal((n, nv))) + 0.1
     dt = np.complex128 if c["complex"] else np.float64
     scale = float(np.abs(f).max()) + 1e-300
-    tol = 1e3 * EPS * cond * scale * L * nv
+    # lengths are differences of coordinates: one ulp of max|x| per breakpoint is inherent (cf. C09)
+    coord = 16 * EPS * max(abs(a), abs(b)) * (len(space["breaks"]) + 1)
+    tol = (1e3 * EPS * cond * L + coord * cond) * scale * nv
 
     def exact(F):
         coef = np.linalg.solve(A, F.reshape(-1, nv).T)          # (nb, N)
@@ -93,7 +95,7 @@ def kernel_pred(c):
     with crash_is_violation("C16:kernel", "get_perturbed_rho"):
         get_perturbed_rho(rp, feq, f, w)
     want = exact(f - feq[:, None, None, :])
-    if np.abs(rp - want).max() > tol + 1e3 * EPS * cond * float(np.abs(feq).max()) * L * nv:
+    if np.abs(rp - want).max() > tol + (1e3 * EPS * cond * L + coord * cond) * float(np.abs(feq).max()) * nv:
         raise Violation("C16:kernel:perturbed", "get_perturbed_rho differs from the exact integral of interp(f - f_eq) by %.3e"
                         % np.abs(rp - want).max())
     # equilibrium -> exactly zero
@@ -107,7 +109,7 @@ def kernel_pred(c):
     get_rho(r2, g, w)
     get_rho(r3, f + c["alpha"] * g, w)
     s2 = scale + abs(c["alpha"]) * float(np.abs(g).max())
-    if np.abs(r3 - (rho + c["alpha"] * r2)).max() > 2e3 * EPS * cond * s2 * L * nv + 1e-290:
+    if np.abs(r3 - (rho + c["alpha"] * r2)).max() > 2 * (1e3 * EPS * cond * L + coord * cond) * s2 * nv + 1e-290:
         raise Violation("C16:kernel:linearity", "rho(f+a g) - rho(f) - a rho(g) = %.3e" % np.abs(r3 - (rho + c["alpha"] * r2)).max())
     return {"nontrivial": c["kind"] == "noise", "labels": ["cu" if basis.cubic_uniform else "nu", c["kind"],
                                                           "complex" if c["complex"] else "float"], "evals": 5}
